@@ -331,6 +331,7 @@ func runC11(e *Engine, r *Report) {
 	borrow(e, r, "C02", "MPT-setapplied")
 	ruleSnapshotJobExclusion(e, r)
 	ruleLastAppliedContiguous(e, r)
+	ruleTaskQueueFIFO(e, r)
 }
 
 func lastN(ss []string, n int) string {
